@@ -248,6 +248,7 @@ func (ex *Exec) runPath(harness *ssa.Function, j *job) (res *PathResult) {
 	ex.known = map[string]*Term{}
 	ex.mutexState = map[*Object]int{}
 	ex.natState = map[string]interface{}{}
+	ex.aliases = nil
 	if j.model != nil {
 		ex.models = []map[string]uint64{j.model}
 	}
